@@ -444,7 +444,7 @@ theorem newGraph_WF (w : World) (inputs outputs nodes inits : List Nat) (h : WF 
   apply ioInsertMany_WF
   exact allocGraph_WF w h
 
-theorem setConst_WF (w : World) (v : Nat) (h : WF w) : WF (setConst w v).1 := by
+theorem setConst_WF (w : World) (v : Nat) (lk : Bool) (h : WF w) : WF (setConst w v lk).1 := by
   apply WF_of_same_core _ _ _ h
   · intro u; simp [setConst, World.val, World.setVal, lget_lset]; split <;> simp_all
   · intro n; exact ⟨rfl, rfl, rfl⟩
@@ -453,7 +453,7 @@ theorem setConst_WF (w : World) (v : Nat) (h : WF w) : WF (setConst w v).1 := by
 theorem step_WF (w : World) (op : Op) (h : WF w) : WF (step w op).1 := by
   cases op <;> simp only [step]
   case newValue name => exact newValue_WF _ _ h
-  case setConst v => exact setConst_WF _ _ h
+  case setConst v lk => exact setConst_WF _ _ _ h
   case newNode opType name inputs numOutputs outputs graph => exact newNode_WF _ _ _ _ _ _ _ h
   case newGraph inputs outputs nodes inits => exact newGraph_WF _ _ _ _ _ h
   case replaceInput n idx v => exact replaceInput_WF _ _ _ _ h
@@ -490,6 +490,14 @@ theorem rauwMany_WF (w : World) (vs rs : List Nat) (rgo : Bool) (h : WF w) : WF 
   unfold rauwMany; split
   · exact h
   · exact rauwSeq_WF _ _ _ h
+
+theorem rauwManyChecked_WF (w : World) (vs rs : List Nat) (rgo : Bool) (h : WF w) :
+    WF (rauwManyChecked w vs rs rgo).1 := by
+  unfold rauwManyChecked; split
+  · exact h
+  · split
+    · exact h
+    · exact rauwSeq_WF _ _ _ h
 
 theorem setNameIfPlain_WF (w : World) (v : Nat) (s : Option String) (h : WF w) : WF (setNameIfPlain w v s) := by
   unfold setNameIfPlain; split
